@@ -101,16 +101,17 @@ func (d *Driver) contractFiles(target string) []string {
 	case "rt":
 		fs = []string{filepath.Join(d.Repo, "builder/verif_contracts_runtime.go")}
 	case "ast":
-		fs = []string{filepath.Join(d.Repo, "ast/verif_contracts.go")}
+		fs = []string{filepath.Join(d.Repo, "ast/verif_contracts_iface.go"), filepath.Join(d.Repo, "ast/verif_contracts.go")}
 	case "builder":
-		fs = []string{filepath.Join(d.Repo, "builder/verif_contracts_builder.go"), filepath.Join(d.Repo, "ast/verif_contracts_iface.go")}
+		// contracts of package ast are loaded first (vocabulary, framesets) and are assumed here: they are verified by the ast target
+		fs = []string{filepath.Join(d.Repo, "ast/verif_contracts_iface.go"), "trusted:" + filepath.Join(d.Repo, "ast/verif_contracts.go"), filepath.Join(d.Repo, "builder/verif_contracts_builder.go")}
 	case "main":
 		fs = []string{filepath.Join(d.Repo, "verif_contracts.go")}
 	}
 	fs = append(fs, filepath.Join(d.Verif, "specs/extern.spec"))
 	var out []string
 	for _, f := range fs {
-		if _, err := os.Stat(f); err == nil {
+		if _, err := os.Stat(strings.TrimPrefix(f, "trusted:")); err == nil {
 			out = append(out, f)
 		}
 	}
@@ -223,6 +224,14 @@ func contractMentions(fc *FuncContract, p string) bool {
 			}
 		}
 		return false
+	}
+	if check(fc.MustCalls) {
+		return true
+	}
+	for _, ca := range fc.StmtAsserts {
+		if check(ca) {
+			return true
+		}
 	}
 	for _, ca := range fc.CallAsserts {
 		if check(ca) {
